@@ -19,6 +19,13 @@ CLAIMED = {
         design_ref="DESIGN.md §3.2",
         note="Dense numpy einsum of <= 8 small tensors is the exact reference; signed/complex data judged only undamped and when every exact message is well conditioned; HV1BP pool tasks scheduled by the simulated pool.",
     ),
+    "C02": dict(
+        category="fault_enumeration",
+        technique="deterministic simulation: seeded interleaving of public operations over several tensor networks sharing tensors, with lifecycle faults (view death now / at delayed GC, hash-address reuse through a simulated allocator, pickle/deepcopy restarts, forked name generator); fresh-scan reference + global ownership relation checked after every step",
+        text="Up to 5 live networks over a shared pool of tensors with labels/tags from tiny alphabets; ~60 operation spellings incl. views, partitions, renames through any holder, structural rewrites. After every step each live network's ind_map / tag_map / inner-outer sets / sizes / check() are compared with a fresh scan, the owners registry with the true holding relation, selections with brute force, and combine results with the no-merge / no-outer-rename rules. Faults decide when viewing networks die, whether a dead network's hash is re-issued, restarts and name-generator forks. Sampling: evidence, not proof.",
+        design_ref="DESIGN.md §3.3",
+        note="Operations are called inside their documented domains (arguments drawn from state; size-compatible adds); three genuine defects are listed in known_findings.json (F6, F8b, F13) and the default generator keeps their triggers rare.",
+    ),
 }
 
 NOT_APPLICABLE = {
